@@ -245,6 +245,27 @@ def m_get(ctx):
     return [x for x in (some, none) if not x.dead]
 
 
+def m_split_at(ctx):
+    """slice.split_at(mid) / split_at_mut(mid): panics unless mid <= len; yields (s[..mid], s[mid..])."""
+    eng, st = ctx.eng, ctx.st
+    base, off, L = slice_parts(ctx, 0)
+    mid = eng.as_lin(st, ctx.args[1])
+    kind = ctx.path.split("::")[-1]
+    if L is None or mid is None:
+        ctx.oblige(("const", False), kind, "always", "unknown length or split point")
+        return [ctx.ret_fresh()]
+    ctx.oblige(("le", mid - L), kind, "always")
+    st.add(mid - L)
+    st.add(-mid)
+    dp = ctx.dest_path(st)
+    if dp is None:
+        return [ctx.ret_fresh()]
+    eng.kill(st, dp)
+    eng.write_path(st, dp + (("f", 0),), ("slice", base, off, mid))
+    eng.write_path(st, dp + (("f", 1),), ("slice", base, off + mid, L - mid))
+    return [st]
+
+
 def m_same_len(ctx):
     a, b = ctx.len_of(0), ctx.len_of(1)
     kind = ctx.path.split("::")[-1]
@@ -858,6 +879,7 @@ EXACT = {
     "<std::vec::Vec<T, A> as std::ops::IndexMut<I>>::index_mut": m_index,
     "core::slice::<impl [T]>::get": m_get,
     "core::slice::<impl [T]>::get_mut": m_get,
+    "core::slice::<impl [T]>::split_at": m_split_at, "core::slice::<impl [T]>::split_at_mut": m_split_at,
     "core::slice::<impl [T]>::copy_from_slice": m_same_len,
     "core::slice::<impl [T]>::clone_from_slice": m_same_len,
     "core::slice::<impl [T]>::first": m_first_last,
